@@ -38,6 +38,18 @@ def chain_depth(depth, dirkind, dirlevel, v):
     return depth
 
 
+_RULE_SCHEMA = None
+
+
+def rule_schema():
+    """the rule is a validator: validate_ast always hands it the schema (it needs one to coerce the operation's variables)"""
+    global _RULE_SCHEMA
+    if _RULE_SCHEMA is None:
+        from py_gql import build_schema
+        _RULE_SCHEMA = build_schema("type Query { keep: Int }")
+    return _RULE_SCHEMA
+
+
 def _depth_single(d1: int, w0: int, wk: int, dirkind: int, dirlevel: int, v: bool, b2: int, limit: int, vm: int = 0) -> bool:
     """
     pre: 0 <= d1 <= DMAX and 0 <= w0 <= 2 and 0 <= wk <= 2 and 0 <= vm <= 3
@@ -75,8 +87,7 @@ def _depth_single(d1: int, w0: int, wk: int, dirkind: int, dirlevel: int, v: boo
         doc = parse(src)
         exp_depth = max(always + [0])
         rule = MaxDepthValidationRule(limit)
-        from py_gql import build_schema
-        errors = rule(build_schema("type Query { keep: Int }"), doc, {"v": V} if VM == 0 else ({"v": None} if VM == 3 else {}))
+        errors = rule(rule_schema(), doc, {"v": V} if VM == 0 else ({"v": None} if VM == 3 else {}))
         if VM >= 2:
             # the directive has no usable value: the operation cannot be executed; the rule must still answer (a list), whatever it says
             return result(isinstance(errors, list), False)
@@ -109,7 +120,7 @@ def _depth_ops(e1: int, e2: int, w1: int, w2: int, opname: int, limit: int, gate
         doc = parse(src)
         name = (None, "A", "B", "Nope")[ON]
     rule = MaxDepthValidationRule(limit, operation_name=name)
-    errors = rule(None, doc, {})
+    errors = rule(rule_schema(), doc, {})
     exp = 0
     if name in (None, "A") and E1 > limit:
         exp += 1
@@ -156,7 +167,7 @@ def _depth_shared_fragment(d1: int, d2: int, k: int, deep_first: bool, limit: in
         if TH:
             depth = max(depth, 1 + K)
         rule = MaxDepthValidationRule(L)
-        errors = rule(None, doc, {})
+        errors = rule(rule_schema(), doc, {})
         ok = (len(errors) > 0) == (depth > L) and len(errors) <= 1
     return result(ok, D1 != D2)
 
@@ -181,7 +192,7 @@ def _depth_pieces(pa: int, pb: int, pc: int, pd: int, sv: bool, iv: bool, wrap: 
         op = doc.definitions[0]
         depth = reference_depth(doc, op, variables)
         limit = depth + D                       # just below, at, just above the true depth
-        errors = MaxDepthValidationRule(limit)(None, doc, variables)
+        errors = MaxDepthValidationRule(limit)(rule_schema(), doc, variables)
         ok = (len(errors) > 0) == (depth > limit) and len(errors) <= 1
     return result(ok, depth > 1)
 
